@@ -53,6 +53,11 @@ def expressions(rnd, objs, plain, feats_by_class):
                    '%s.gd.' % o, '%s.gd' % o,
                    'not %s' % o, '%s.i_list[0].' % o, 'next(%s).' % o, 'bool(%s)' % o,
                    'x, y = %s\nx.' % o, '%s.dynamic_one.' % o]
+        elif o.startswith('sub_') and o != 'sub_box':
+            ex += ['%s[0].' % o, '%s[0]' % o, "%s['k']." % o, "%s['k']" % o, '%s[1].' % o]
+        elif o == 'sub_box':
+            ex += ["sub_box['rows'][0].", "sub_box['rows'][0]", "sub_box['both'][0]['k'].",
+                   "sub_box['both'][1][0].", "sub_box['both'][1][0]"]
         elif o.startswith('K'):
             ex += ['%s.lcm.' % o, '%s.csm(' % o, '%s.lprop' % o,
                    '%s.mprop.' % o, '%s.mnd.' % o, '%s.prop.' % o, '%s.nd.' % o, '%s.c_leaf.' % o,
